@@ -155,26 +155,30 @@ def check_cm(ctx, m, relpath, name, verified):
 def _inplace_exits(f):
     """Return statements of a handler that are not of an in-place form."""
     bad = []
+    par = X.param_name(f)
+    # locals that hold the mapper entry of the visited node / an accumulated result of visiting the children
+    handles = set(X.names_assigned_from(f.node, 'self.mapper['))
+    accum = set(X.names_assigned_from(f.node, "kwargs.pop('ret'")) | {'ret'}
     for r in (n for n in ast.walk(f.node) if isinstance(n, ast.Return)):
         v = r.value
         if v is None or (isinstance(v, ast.Constant) and v.value is None):
             continue
-        if isinstance(v, ast.Name) and v.id in ('o', 'ret'):
+        if isinstance(v, ast.Name) and (v.id == par or v.id in accum):
             continue
         txt = ast.unparse(v)
         if isinstance(v, ast.Call):
             d = X.dotted_attr(v.func) or ''
             if d == 'self.visit_Node' or d.startswith('super().visit_'):
                 continue
-            if d == 'self._rebuild' and v.args and ast.unparse(v.args[0]) == 'o':
+            if d == 'self._rebuild' and v.args and ast.unparse(v.args[0]) == par:
                 continue        # Transformer._rebuild honours self.inplace (checked under R2)
-            if d == 'handle._rebuild':
+            if d.endswith('._rebuild') and d.split('.')[0] in handles:
                 continue        # only under `o in self.mapper`; attacher/detacher are built with an empty mapper
             if d == 'tuple' or d == 'as_tuple':
                 continue        # visit_tuple: tuple of the visited elements
         bad.append(txt)
     for n in ast.walk(f.node):
-        if isinstance(n, ast.Call) and X.dotted_attr(n.func) in ('o.clone', 'o._rebuild'):
+        if isinstance(n, ast.Call) and X.dotted_attr(n.func) in (f'{par}.clone', f'{par}._rebuild'):
             bad.append(ast.unparse(n))
     return bad
 
@@ -260,7 +264,8 @@ def run(ctx):
         sites = X.nodes_with_guards(f.node, lambda n: isinstance(n, ast.Call) and isinstance(n.func, ast.Attribute)
                                     and n.func.attr == '_update' and any(k.arg == 'pragma' for k in n.keywords))
         for call, guards in sites:
-            ok = any('isinstance(i, self.node_type)' in g and not g.startswith('not (') for g in guards)
+            recv = ast.unparse(call.func.value)          # the node being updated
+            ok = any(f'isinstance({recv}, self.node_type)' in g and not g.startswith('not (') for g in guards)
             (ctx.judge('R2', f'{V.name}.visit_tuple:pragma-type-guard', facts={'guards': guards}) if ok else
              ctx.violation('R2', f'{V.name}.visit_tuple:pragma-type-guard', f'{V.module.relpath}:{call.lineno}',
                            f'`{ast.unparse(call)}` is not restricted to nodes of the requested node_type'))
@@ -269,10 +274,15 @@ def run(ctx):
     loop = next((n for n in ast.walk(vt.node) if isinstance(n, ast.For)), None)
     order = []
     if loop is not None:
+        lv = loop.target.id if isinstance(loop.target, ast.Name) else 'i'
+        # the accumulator is the local returned (as a tuple) by the handler
+        accs = {n.target.id for n in ast.walk(loop) if isinstance(n, ast.AugAssign) and isinstance(n.target, ast.Name)}
+        rets = ' '.join(ast.unparse(r.value) for r in ast.walk(vt.node) if isinstance(r, ast.Return) and r.value is not None)
+        acc = next((a for a in sorted(accs) if a in rets), 'updated')
         for n in ast.walk(loop):
-            if isinstance(n, ast.AugAssign) and isinstance(n.target, ast.Name) and n.target.id == 'updated':
+            if isinstance(n, ast.AugAssign) and isinstance(n.target, ast.Name) and n.target.id == acc:
                 txt = ast.unparse(n.value)
-                tag = 'pragma_post' if 'pragma_post' in txt else ('pragma' if '.pragma' in txt else ('node' if txt in ('(i,)', '[i]') else txt))
+                tag = 'pragma_post' if 'pragma_post' in txt else ('pragma' if '.pragma' in txt else ('node' if txt in (f'({lv},)', f'[{lv}]') else txt))
                 order.append((n.lineno, tag))
     order = [t for _, t in sorted(order)]
     if order == ['pragma', 'node', 'pragma_post']:
@@ -284,10 +294,14 @@ def run(ctx):
     # region attacher/detacher
     RD = m.get_class(PU, 'PragmaRegionDetacher')
     rvt = RD.function('visit_tuple')
-    handle = [n for n in ast.walk(rvt.node) if isinstance(n, ast.Assign) and ast.unparse(n.targets[0]) == 'handle']
+    handle = [n for n in ast.walk(rvt.node) if isinstance(n, ast.Assign) and isinstance(n.targets[0], ast.Name)
+              and '.pragma_post' in ast.unparse(n.value) and '.body' in ast.unparse(n.value)]
     if handle:
         txt = ast.unparse(handle[0].value)
-        pos = [txt.find('r.pragma,'), txt.find('r.body'), txt.find('r.pragma_post')]
+        import re as _re
+        pos = [(_re.search(r'\w+\.pragma,', txt) or _re.search(r'\w+\.pragma\b(?!_)', txt)), _re.search(r'\w+\.body', txt),
+               _re.search(r'\w+\.pragma_post', txt)]
+        pos = [p_.start() if p_ else -1 for p_ in pos]
         if all(p >= 0 for p in pos) and pos == sorted(pos):
             ctx.judge('R2', 'PragmaRegionDetacher:order', facts={'handle': txt})
         else:
@@ -300,7 +314,14 @@ def run(ctx):
     if len(reg) != 1:
         raise AnalysisError('PragmaRegionAttacher: PragmaRegion construction not found')
     kw = {k.arg: ast.unparse(k.value) for k in reg[0].keywords}
-    okr = kw.get('pragma') == 'start' and kw.get('pragma_post') == 'stop' and kw.get('body') == 'o[idx_start + 1:idx_stop]'
+    pair = next((n.target for n in ast.walk(avt.node) if isinstance(n, ast.For) and 'pragma_pairs' in ast.unparse(n.iter)
+                 and isinstance(n.target, ast.Tuple) and len(n.target.elts) == 2), None)
+    okr = False
+    if pair is not None:
+        st_, sp_ = (ast.unparse(e) for e in pair.elts)
+        ist = (X.names_assigned_from(avt.node, f'.index({st_})') or ['?'])[0]
+        isp = (X.names_assigned_from(avt.node, f'.index({sp_})') or ['?'])[0]
+        okr = kw.get('pragma') == st_ and kw.get('pragma_post') == sp_ and kw.get('body') == f'o[{ist} + 1:{isp}]'
     (ctx.judge('R2', 'PragmaRegionAttacher:region', facts=kw) if okr else
      ctx.violation('R2', 'PragmaRegionAttacher:region', avt.where, f'PragmaRegion built with {kw}'))
     for fn, cls in (('attach_pragma_regions', 'PragmaRegionAttacher'), ('detach_pragma_regions', 'PragmaRegionDetacher')):
